@@ -39,8 +39,15 @@ STATEMENTS = {
     'set "Nowhere"': [], 'on group "NoGroup"': [], 'set location "NoLoc"': [], 'get "Nowhere"': [],
     'set "A" zone 1': [], 'set "MX" zone 0 2': [], 'set "A" row 1': [], 'set "MZ" column 0': [], 'set "Nowhere" begin stage row 0 end': [],
     'set "B" begin stage row 0 end': [], 'off "Nowhere" and "C"': [('C', 'set_power')], 'set "Nowhere" zone 3 and "B"': [('B', 'set_color')],
+    # loops over lists that name unknown groups / locations / lights: the unknown part contributes nothing
+    'repeat in group "NoGroup" as x set x': [], 'repeat in location "NoLoc" as x on x': [],
+    'repeat in "A" and group "NoGroup" as x set x': [('A', 'set_color')],
+    'repeat in location "NoLoc" and "C" and group "NoGroup" as x off x': [('C', 'set_power')],
+    'repeat in group "G" as x on x': [('A', 'set_power'), ('B', 'set_power')],
+    'repeat in "Nowhere" and "B" as x set x': [('B', 'set_color')],
+    'repeat in group "NoGroup" as x with b from 1 to 50 begin brightness b set x end': [],
 }
-MISMATCH = [s for s, reqs in STATEMENTS.items() if not reqs or 'Nowhere' in s]
+MISMATCH = [s for s, reqs in STATEMENTS.items() if not reqs or 'Nowhere' in s or 'NoGroup' in s or 'NoLoc' in s]
 PRELUDE = 'hue 120 saturation 50 brightness 25 kelvin 2700 duration 1\n'
 
 
